@@ -22,7 +22,7 @@ def raw_attr(tv, i):
     return Struct({0: Struct({0: Struct({0: Num(tv)}), 1: Num(ln)}), 1: Enum("stun_types::data::Data", {0: Struct({0: Struct({0: Seq(ln)})})})})
 
 
-def policing(prog, chk, rule="policing-table"):
+def policing(prog, chk, rule="policing-table", sizes=(0, 1, 2)):
     body = prog.bodies.get(CHECK)
     if body is None:
         chk.fail(rule, "check_attribute_types not found")
@@ -30,9 +30,9 @@ def policing(prog, chk, rule="policing-table"):
     arg = {body.locals[i]["name"]: i for i in range(1, body.arg_count + 1)}
     n_states = 0
     outcomes = set()
-    for k in (0, 1, 2):
-        for m in (0, 1, 2):
-            for n in (0, 1, 2):
+    for k in sizes:
+        for m in sizes:
+            for n in sizes:
                 tvars = [Lin.var("t%d" % i) for i in range(k)]
                 svars = [Lin.var("s%d" % i) for i in range(m)]
                 rvars = [Lin.var("r%d" % i) for i in range(n)]
